@@ -12,7 +12,7 @@ RULE = ("(annotation built by successive insertions, support): random annotation
         "same track name on different segments, mixed int/str names incl. 0, '0', 'A', 'B'; supports: random "
         "Segment/Timeline, or the intersection of two overlapping original segments (so that two originals collapse "
         "onto the same piece), or a region cutting several segments; crop and extrude in the three modes; "
-        "regimes K0/K4/K1; non-trivial = intersection-mode result has a piece shared by two tracks")
+        "regimes K0/K4/K1; copies translated 2 h, 28 h, 3 d or -8 h 20 min from the origin; non-trivial = intersection-mode result has a piece shared by two tracks")
 
 
 def _support(rng, regime, recs):
